@@ -22,8 +22,8 @@ ASSUME = ["`lorem` is not used (its randomness is the only documented impurity)"
 
 ABBRS_M = ['doc', 'ul>li*2', 'ul>li*', 'p{$#}*', 'a', 'a[href=x]{t}', 'div.b_m>.-e', 'ul.nav>.-item*2>._active', 'div.b>div.-e>div.-e', 'bad', 'bad2>p', 'x1+bad', 'a[', 'p{', '(a',
            'foo', 'foo.a.b', 'p{${v}}', 'vare>p', 'tm', '!', 'table>.r>.c', 'ul>li.i$*3', 'a:link', 'select>.o', 'ul>li*5', 'x1*4>x2*2', '', '()', '()*3', '(())',
-           'x1>.c', 'em>.a', 'sec>#i>.k']
-ABBRS_C = ['zq', 'zr', '@kf', 'bg:al', 'bg-be', 'bgx', 'm10', 'p10-20', 'm', 'p', 'bd', 'c#fc0', 'fz1.5', 'lh2', 'z10', 'm10+p', 'bad', 'xx', 'm-a', 'pos:a', 'trf:rx', 'w100p', 'mah', 'p!', '(', 'm10-', 'trf-s(2, 3)', 'trf-s(1)', 'trf-s', 'trf:r(45deg)', 'trf:r']
+           'x1>.c', 'em>.a', 'sec>#i>.k', 'x1>{[$#]}', 'p']
+ABBRS_C = ['zq', 'zr', '@kf', 'bg:al', 'bg-be', 'bgx', 'lis:da', 'lis:d', 'ol:da', 'ol:d', 'ov:ma', 'ov:m', 'm10', 'p10-20', 'm', 'p', 'bd', 'c#fc0', 'fz1.5', 'lh2', 'z10', 'm10+p', 'bad', 'xx', 'm-a', 'pos:a', 'trf:rx', 'w100p', 'mah', 'p!', '(', 'm10-', 'trf-s(2, 3)', 'trf-s(1)', 'trf-s', 'trf:r(45deg)', 'trf:r']
 
 CFG_M = [
     {},
@@ -44,6 +44,7 @@ CFG_M = [
     {'variables': {'lang': 'fr', 'charset': 'koi8-r'}, 'options': {'output.format': False}},
     {'options': {'inlineElements': ['x1', 'em', 'sec']}},
     {'options': {'inlineElements': []}},
+    {'text': ['  first line', '    second line  ']},
 ]
 CFG_C = [
     {'type': 'stylesheet'},
@@ -341,13 +342,23 @@ def pair_cases():
             j = 0 if c2 == c1 else 1
             yield {'cfgs': cfgs, 'ncaches': 0, 'steps': [{'abbr': a1, 'cfg': 0, 'via': 'dict', 'cache': None}, {'abbr': a2, 'cfg': j, 'via': 'dict', 'cache': None},
                                                           {'abbr': a1, 'cfg': 0, 'via': 'dict', 'cache': None}]}
-    fam_i = [(a, c) for a in ('x1>.c', 'em>.a', 'sec>#i>.k') for c in (0, len(CFG_M) - 2, len(CFG_M) - 1)]
+    fam_i = [(a, c) for a in ('x1>.c', 'em>.a', 'sec>#i>.k') for c in (0, len(CFG_M) - 3, len(CFG_M) - 2)]
     for (a1, c1) in fam_i:
         for (a2, c2) in fam_i:
             cfgs = [CFG_M[c1]] + ([CFG_M[c2]] if c2 != c1 else [])
             j = 0 if c2 == c1 else 1
             yield {'cfgs': cfgs, 'ncaches': 0, 'steps': [{'abbr': a1, 'cfg': 0, 'via': 'dict', 'cache': None}, {'abbr': a2, 'cfg': j, 'via': 'dict', 'cache': None},
                                                           {'abbr': a1, 'cfg': 0, 'via': 'dict', 'cache': None}]}
+
+
+    # wrap lines with edge blanks and no blank line, pulled by position in one call and inserted whole in another (added after seeded change
+    # C08-13: the caller's own list trimmed in place through an aliased copy)
+    fam_t = ('ul>li*', 'p{$#}*', 'p', 'x1>{[$#]}')
+    for a1 in fam_t:
+        for a2 in fam_t:
+            for via in ('dict', 'Config'):
+                yield {'cfgs': [CFG_M[-1]], 'ncaches': 0, 'steps': [{'abbr': a1, 'cfg': 0, 'via': via, 'cache': None}, {'abbr': a2, 'cfg': 0, 'via': via, 'cache': None},
+                                                                     {'abbr': a1, 'cfg': 0, 'via': 'dict', 'cache': None}]}
 
 
 def shard_pairs(ctx, shard, nshards):
